@@ -27,7 +27,14 @@ structure ModDecl where
   stages : Nat
   mode : StackMode
 
+structure DownLine where
+  who : String
+  hook : String
+  n : Nat
+  restartIn : Option Nat
+
 structure Script where
+  downs : List DownLine := []
   mods : List ModDecl := []
   elems : List ElemDecl := []
   rules : List (String × Nat × Act) := []
@@ -94,6 +101,10 @@ def parseScript (body : List String) : Script := Id.run do
               | none => .now em
             sc := { sc with emits := sc.emits ++ [⟨who, hook, key, he⟩] }
       | _, _, _ => pure ()
+    | ["down", who, hook, n, r] =>
+      match n.toNat?, (if r == "-" then some none else r.toNat?.map some) with
+      | some n, some r => sc := { sc with downs := sc.downs ++ [⟨who, hook, n, r⟩] }
+      | _, _ => pure ()
     | ["init", m, id, t] =>
       match modIdx sc m, id.toNat?, t.toNat? with
       | some mi, some id, some t => sc := { sc with inits := sc.inits ++ [(mi, id, t)] }
@@ -103,23 +114,31 @@ def parseScript (body : List String) : Script := Id.run do
 
 def elemOf (sc : Script) (idx : Nat) (d : ElemDecl) : Elem :=
   let rules := sc.rules.filter (·.1 == d.name)
-  let ems (hook : String) (key : Nat) : List Emit :=
+  let ems (hook : String) (key : Nat) : List Action :=
     (sc.emits.filter fun l => l.who == d.name && l.hook == hook && l.key == key).filterMap fun l =>
       match l.emit with
-      | .now e => some e
-      | .task _ e => some e
+      | .now e => some (.send e)
+      | .task _ e => some (.send e)
+      | .shutdown _ => none
+  let dns (hook : String) (n : Nat) : List Action :=
+    (sc.downs.filter fun l => l.who == d.name && l.hook == hook && l.n == n).map fun l => .shutdown l.restartIn
   { tag := idx
     act := fun id => match rules.find? (·.2.1 == id) with
       | some r => r.2.2
       | none => .pass
-    onStart := ems "start"
-    onInc := ems "inc"
-    onEnd := ems "end" }
+    onStart := fun n => ems "start" n ++ dns "start" n
+    onInc := fun id n => ems "inc" id ++ dns "inc" n
+    onEnd := fun n => ems "end" n ++ dns "end" n }
 
 def handlerOf (sc : Script) (m : ModDecl) : Handler :=
   let ems (hook : String) (key : Nat) : List HEmit :=
     (sc.emits.filter fun l => l.who == "H:" ++ m.name && l.hook == hook && l.key == key).map (·.emit)
-  { stages := m.stages, onMsg := ems "msg", onSimStart := ems "simstart", onSimEnd := ems "simend" 0 }
+  let dns (hook : String) (n : Nat) : List HEmit :=
+    (sc.downs.filter fun l => l.who == "H:" ++ m.name && l.hook == hook && l.n == n).map fun l => .shutdown l.restartIn
+  { stages := m.stages
+    onMsg := fun id n => ems "msg" id ++ dns "msg" n
+    onSimStart := fun k n => ems "simstart" k ++ dns "simstart" n
+    onSimEnd := ems "simend" 0 }
 
 /-- per module: the stack as element names (for reading the implementation log) and as model state -/
 def stacksOf (sc : Script) : List (List String × ModRt) :=
@@ -130,7 +149,7 @@ def stacksOf (sc : Script) : List (List String × ModRt) :=
     let mk (l : List (ElemDecl × Nat)) : List Elem := l.map fun p => elemOf sc p.2 p.1
     let st := buildStack m.mode (mk globals) (mk own)
     let names := st.map fun e => ((sc.elems[e.spec.tag]?).map (·.name)).getD "?"
-    (names, { elems := st, handler := handlerOf sc m, sleepers := [], nextWakeup := none })
+    (names, ModRt.fresh st (handlerOf sc m))
 
 def hookOf : String → Option Hook
   | "start" => some .start | "inc" => some .inc | "end" => some .end_ | "msg" => some .msg
@@ -155,6 +174,15 @@ def parseObs (sc : Script) (stacks : List (List String × ModRt)) (line : String
       | some msg, some who => some ⟨mi, who, h, msg, t⟩
       | _, _ => none
     | _, _, _ => none
+  | _ => none
+
+/-- `obs <M> <who> down <restart|-> <t>` -> (module, restart time) -/
+def parseDown (sc : Script) (line : String) : Option (Nat × Option Nat) :=
+  match words line with
+  | ["obs", m, _, "down", r, _] =>
+    match modIdx sc m, (if r == "-" then some none else r.toNat?.map some) with
+    | some mi, some r => some (mi, r)
+    | _, _ => none
   | _ => none
 
 def showEntry (sc : Script) (stacks : List (List String × ModRt)) (e : Entry) : String :=
@@ -184,17 +212,22 @@ def runCase (c : Case) : String := Id.run do
   let stacks := stacksOf sc
   -- the implementation's answer
   let mut impl : List Entry := []
+  let mut implDowns : List (Nat × Nat × Option Nat) := []
   let mut res := ""
   let mut i := 0
   for line in c.body do
     if line.startsWith "obs " then
-      i := i + 1
-      match parseObs sc stacks line with
-      | some e => impl := e :: impl
-      | none => return s!"fail {id} op={i} kind=badline detail=[{line}]"
+      match parseDown sc line with
+      | some (mi, r) => implDowns := (i, mi, r) :: implDowns
+      | none =>
+        i := i + 1
+        match parseObs sc stacks line with
+        | some e => impl := e :: impl
+        | none => return s!"fail {id} op={i} kind=badline detail=[{line}]"
     else if line.startsWith "res " then
       res := line
   impl := impl.reverse
+  implDowns := implDowns.reverse
   if !(res.startsWith "res ok") then
     -- no scripted behaviour panics: a failed run is a counterexample by itself
     return s!"fail {id} op={impl.length} kind=reject clause=run-failed impl=[{res}]"
@@ -203,6 +236,26 @@ def runCase (c : Case) : String := Id.run do
   match rejectsAt acts impl with
   | some k =>
     return s!"fail {id} op={k} kind=reject clause=bracket-shape at=[{showOpt sc stacks impl[k]?}] prev=[{showOpt sc stacks (if k = 0 then none else impl[k-1]?)}]"
+  | none => pure ()
+  -- A: lifecycle — no hook for a module that is shut down
+  let brs := brackets acts impl
+  let offs := brs.foldl (fun (acc : List Nat × Nat) b =>
+    (acc.1 ++ [acc.2], acc.2 + (shape b.1 b.2.1 ((acts[b.1]?).getD []) b.2.2).length)) ([], 0)
+  let lbrs := (brs.zip offs.1).map fun p =>
+    let len := (shape p.1.1 p.1.2.1 ((acts[p.1.1]?).getD []) p.1.2.2).length
+    (p.1.1, p.1.2.1, p.1.2.2,
+      (implDowns.filter fun d => d.2.1 == p.1.1 && p.2 < d.1 && d.1 ≤ p.2 + len).map (·.2.2))
+  match lifeRejectsAt (sc.mods.map (·.stages)) lbrs (List.replicate sc.mods.length {}) 0 with
+  | some k =>
+    let pos := (offs.1[k]?).getD 0
+    let b := lbrs[k]?
+    let kindStr := match b with
+      | some (_, _, .message x, _) => s!"message:{x}"
+      | some (_, _, .wakeup, _) => "wakeup"
+      | some (_, _, .simStart x, _) => s!"simstart:{x}"
+      | some (_, _, .simEnd, _) => "simend"
+      | none => "?"
+    return s!"fail {id} op={pos} kind=reject clause=hook-on-inactive-module event={kindStr} at=[{showOpt sc stacks impl[pos]?}]"
   | none => pure ()
   -- T: the model
   let s := run fuel { mods := stacks.map (·.2), inits := sc.inits }
@@ -213,8 +266,13 @@ def runCase (c : Case) : String := Id.run do
   | some k =>
     return s!"fail {id} op={k} kind=diverge model=[{showOpt sc stacks s.log[k]?}] impl=[{showOpt sc stacks impl[k]?}] prev=[{showOpt sc stacks (if k = 0 then none else impl[k-1]?)}]"
   | none => pure ()
+  if s.downs != implDowns then
+    return s!"fail {id} op=0 kind=diverge clause=shutdown-requests model={s.downs.length} impl={implDowns.length}"
   -- evidence
-  let brs := brackets acts impl
+  let downEvents := (lbrs.filter fun b => !b.2.2.2.isEmpty).length
+  let restarts := (s.evs.toList.filter fun e => match e with | .restart _ => true | _ => false).length
+  -- deliveries that found their module shut down (no bracket was drawn for them)
+  let ignored := (s.evs.toList.filter fun e => match e with | .deliver .. => true | _ => false).length - (brs.filter fun b => match b.2.2 with | .message _ => true | _ => false).length
   let msgBr := brs.filter fun b => match b.2.2 with | .message _ => true | _ => false
   let isConsumed (b : Nat × Nat × Kind) : Bool :=
     match acts[b.1]? with
@@ -233,9 +291,10 @@ def runCase (c : Case) : String := Id.run do
   let emptyStacks := (acts.filter (·.isEmpty)).length
   let wakeups := (s.evs.toList.filter fun e => match e with | .wakeup _ => true | _ => false).length
   let exits := (s.evs.toList.filter fun e => match e with | .exitConn .. => true | _ => false).length
+  let downStacked := (lbrs.filter fun b => !b.2.2.2.isEmpty && (match acts[b.1]? with | some a => !a.isEmpty | none => false)).length
   let _ := modified
   let nt := deepConsumed > 0 && handled > 0 && maxStack ≥ 2 && ties > 0
-  return s!"ok {id} nt={if nt then 1 else 0} entries={impl.length} events={brs.length} msgs={msgBr.length} consumed={consumed} deepconsumed={deepConsumed} handled={handled} ties={ties} wakeups={wakeups} gatehops={exits} maxstack={maxStack} emptystacks={emptyStacks} mods={acts.length}"
+  return s!"ok {id} nt={if nt then 1 else 0} entries={impl.length} events={brs.length} msgs={msgBr.length} consumed={consumed} deepconsumed={deepConsumed} handled={handled} ties={ties} wakeups={wakeups} gatehops={exits} maxstack={maxStack} emptystacks={emptyStacks} mods={acts.length} shutdowns={downEvents} shutdownsstacked={downStacked} restarts={restarts} ignoredmsgs={ignored}"
 
 def main (stdin : IO.FS.Stream) : IO Unit := do
   let cases ← readCases stdin
